@@ -15,7 +15,7 @@ from ..engine import pattern as P
 from ..engine.facts import dotted, const, src, walk_func, enclosing_stmt
 from . import skeletons as sk
 from . import c04  # strict-emission (imported names precede the context) is registered for C07 there
-from .common import calls, stmt_nodes, param_names, pn, access_paths
+from .common import calls, stmt_nodes, param_names, pn, access_paths, assigned_from
 
 
 @rule("C07.single-gateway", min_instances=7)
@@ -32,22 +32,25 @@ def single_gateway(ctx):
     ctx.require(n >= 1, "no lookup.get_template call in runtime.py")
     lt = db.func("runtime._lookup_template")
     g = cfgmod.function_cfg(lt)
-    adj = [s for s in walk_func(lt) if isinstance(s, ast.Assign) and isinstance(s.value, ast.Call) and dotted(s.value.func) == "lookup.adjust_uri"]
+    lkv = assigned_from(lt, "%s._with_template.lookup" % pn(lt, 0))
+    lkn = sorted(lkv)[0] if lkv else "lookup"
+    adj = [s for s in walk_func(lt) if isinstance(s, ast.Assign) and isinstance(s.value, ast.Call) and dotted(s.value.func) == lkn + ".adjust_uri"]
     if not adj:
         ctx.violation("adjust.missing", db.where(lt), "_lookup_template does not adjust the URI relative to the calling template (no lookup.adjust_uri): relative URIs are looked up as given")
         return
     a = adj[0]
-    ctx.check(src(a.targets[0]) == "uri" and [src(x) for x in a.value.args] == ["uri", "relativeto"], "adjust.args", db.where(a), "adjust_uri called as %s" % src(a), "uri = lookup.adjust_uri(uri, relativeto)")
-    gt = [c for c in walk_func(lt) if isinstance(c, ast.Call) and dotted(c.func) == "lookup.get_template"]
-    ctx.check(bool(gt) and src(gt[0].args[0]) == "uri" and g.stmt_dominates(a, enclosing_stmt(gt[0]).__class__ and _outer(gt[0], g)), "adjust-dominates-get", db.where(gt[0]) if gt else db.where(lt), "get_template is not given the adjusted URI on every path", "adjusted URI dominates get_template")
+    uriv = src(a.targets[0])
+    ctx.check(isinstance(a.targets[0], ast.Name) and [src(x) for x in a.value.args] == [pn(lt, 1), pn(lt, 2)], "adjust.args", db.where(a), "adjust_uri called as %s" % src(a), "uri = lookup.adjust_uri(uri, relativeto)")
+    gt = [c for c in walk_func(lt) if isinstance(c, ast.Call) and dotted(c.func) == lkn + ".get_template"]
+    ctx.check(bool(gt) and src(gt[0].args[0]) == uriv and g.stmt_dominates(a, enclosing_stmt(gt[0]).__class__ and _outer(gt[0], g)), "adjust-dominates-get", db.where(gt[0]) if gt else db.where(lt), "get_template is not given the adjusted URI on every path", "adjusted URI dominates get_template")
     hs = [h for t in walk_func(lt) if isinstance(t, ast.Try) for h in t.handlers]
     ok = any(h.type is not None and "TopLevelLookupException" in src(h.type) and any(isinstance(r, ast.Raise) and isinstance(r.exc, ast.Call) and dotted(r.exc.func).endswith("TemplateLookupException") for r in ast.walk(h)) for h in hs)
     ctx.check(ok, "translate", db.where(lt), "TopLevelLookupException is not translated to TemplateLookupException", "unresolvable URI -> TemplateLookupException")
     nl = [i for i in walk_func(lt) if isinstance(i, ast.If) and P.has(i.test, "$l is None")]
     ok = bool(nl) and any(isinstance(r, ast.Raise) and isinstance(r.exc, ast.Call) and dotted(r.exc.func).endswith("TemplateLookupException") for r in ast.walk(nl[0]))
     ctx.check(ok, "no-lookup", db.where(lt), "a template without a lookup does not raise TemplateLookupException", "no lookup -> TemplateLookupException")
-    lk = [s for s in walk_func(lt) if isinstance(s, ast.Assign) and src(s.targets[0]) == "lookup"]
-    ctx.check(bool(lk) and src(lk[0].value) == "context._with_template.lookup", "lookup-source", db.where(lt), "lookup is taken from %s" % (src(lk[0].value) if lk else None), "lookup of the rendering template")
+    lk = [s for s in walk_func(lt) if isinstance(s, ast.Assign) and src(s.targets[0]) == lkn]
+    ctx.check(bool(lk) and bool(lkv), "lookup-source", db.where(lt), "lookup is taken from %s" % (src(lk[0].value) if lk else None), "lookup of the rendering template")
     callers = sorted({getattr(getattr(c, "_func", None), "_qual", "?") for c in ast.walk(m.tree) if isinstance(c, ast.Call) and dotted(c.func) == "_lookup_template"})
     ctx.note("gateway_callers", callers)
     for q in ("runtime.TemplateNamespace.__init__", "runtime.Namespace.get_template", "runtime._include_file", "runtime._inherit_from"):
@@ -148,19 +151,21 @@ def include_isolation(ctx):
     ctx.check(all(len(c.args) == 2 for c in dels), "clean.tolerant", db.where(ci), "pop without default raises when the token is absent", "pop(token, None)")
     rr = flow.Reaching(ci)
     ok = True
+    cps = assigned_from(ci, "self._copy()")
     for c in dels:
         recv = c.func.value
         if isinstance(recv, ast.Name):
             defs = rr.defs_at(enclosing_stmt(c), recv.id)
-            ok = ok and all(isinstance(d, ast.Assign) and src(d.value) in ("c._data",) for d in defs)
+            ok = ok and all(isinstance(d, ast.Assign) and src(d.value) in {c_ + "._data" for c_ in cps} for d in defs)
         else:
-            ok = ok and src(recv) == "c._data"
+            ok = ok and src(recv) in {c_ + "._data" for c_ in cps}
     ctx.check(ok, "clean.on-copy", db.where(ci), "tokens are removed from the shared data, not from the copy's", "removed from the copy's _data")
     ret = [r for r in walk_func(ci) if isinstance(r, ast.Return)]
-    ctx.check(bool(ret) and src(ret[0].value) == "c", "clean.returns-copy", db.where(ci), "does not return the copy", "returns the copy")
+    ctx.check(bool(ret) and src(ret[0].value) in cps, "clean.returns-copy", db.where(ci), "does not return the copy", "returns the copy")
     inc = db.func("runtime._include_file")
     ps = [c for c in walk_func(inc) if isinstance(c, ast.Call) and dotted(c.func) == "_populate_self_namespace"]
-    ctx.check(bool(ps) and src(ps[0].args[0]) == "context._clean_inheritance_tokens()" and src(ps[0].args[1]) == "template", "include.context", db.where(inc), "the included template is populated with %s" % (src(ps[0]) if ps else None), "own self/local on a cleaned context copy")
+    itv = assigned_from(inc, "_lookup_template(%s, %s, %s)" % (pn(inc, 0), pn(inc, 1), pn(inc, 2)))
+    ctx.check(bool(ps) and src(ps[0].args[0]) == "%s._clean_inheritance_tokens()" % pn(inc, 0) and src(ps[0].args[1]) in itv, "include.context", db.where(inc), "the included template is populated with %s" % (src(ps[0]) if ps else None), "own self/local on a cleaned context copy")
     S = sk.get(db)
     n = 0
     for t in S.model.method_traces("write_namespaces"):
@@ -187,7 +192,8 @@ def include_args(ctx):
     ctx.check(P.has(ifs[0], "$k[$a] = $d[$a]"), "copy", db.where(ifs[0]), "copies %s" % src(ifs[0].body[0]), "kwargs[arg] = data[arg]")
     inc = db.func("runtime._include_file")
     c = [x for x in walk_func(inc) if isinstance(x, ast.Call) and dotted(x.func) == "_kwargs_for_include"]
-    ctx.check(bool(c) and src(c[0].args[0]) == "callable_" and src(c[0].args[1]) == "context._data", "source", db.where(inc), "include arguments completed from %s" % (src(c[0]) if c else None), "from the includer's context data, for the callee's signature")
+    cvs = assigned_from(inc, "_populate_self_namespace(...)#0")
+    ctx.check(bool(c) and src(c[0].args[0]) in cvs and src(c[0].args[1]) == "%s._data" % pn(inc, 0), "source", db.where(inc), "include arguments completed from %s" % (src(c[0]) if c else None), "from the includer's context data, for the callee's signature")
     S = sk.get(db)
     ok = False
     for t_ in S.model.method_traces("visitIncludeTag"):
